@@ -1,6 +1,7 @@
 import DspVerif.Props.C14
 import DspVerif.Props.C06Gen
 import DspVerif.Gen.StepsTuner
+import DspVerif.Gen.CtorTuner
 /-!
 # C14 — bridge: the hand-written `Tuner` model IS the regenerated loop body of `Tuner::process`
 
@@ -152,6 +153,123 @@ theorem tuner_gen_state (fs : ℕ) (hfs : 0 < fs) (f : ℝ) (s0 : TunerState ℝ
   rw [tuner_run_eq]
   have hs := (C14.tunerInit_ok fs f s0 h0).1
   rw [(C14.tuner_process_eq s0 (by rw [hs]; exact hfs) (by rw [hs]; intro _; exact hfs) xs).1]
+
+/-! ## The constructor `Tuner::Tuner(int sample_rate, real_t freq)` (regenerated: `Gen/CtorTuner.lean`)
+
+`Gen.tunerCtor` is the constructor as the C++ AST has it now: the members in declaration order (`_fs{sample_rate}`, `_freq{freq}`,
+`_periodic{freq == std::floor(freq)}` — IEEE `==` as `≤ ∧ ≥` —, `_phase{0}` from the default member initialiser), then the
+`DSPLIB_ASSERT(std::abs(_freq) <= (_fs / 2.0))` of the body.  The model's `tunerInit` is that function (`tunerCtor_eq`), so a change of
+the integer test, of the guard, or of the initial counter changes `Gen.tunerCtor` and breaks these proofs. -/
+
+/-- the generated object record of a model state -/
+def toGenObj {α : Type} (t : TunerState α) : Gen.TunerObj α :=
+  { fs := (t.fs : Int), freq := t.freq, periodic := t.periodic, phase := (t.phase : Int) }
+
+/-- the members of a constructed object that the generated loop body only reads / writes -/
+def objP {α : Type} (o : Gen.TunerObj α) : Gen.TunerStepParams α := { fs := o.fs, freq := o.freq, periodic := o.periodic }
+def objS {α : Type} (o : Gen.TunerObj α) : Gen.TunerStepState α := { phase := o.phase }
+
+theorem objP_toGenObj {α : Type} (t : TunerState α) : objP (toGenObj t) = toGenP t := rfl
+theorem objS_toGenObj {α : Type} (t : TunerState α) : objS (toGenObj t) = toGenS t := rfl
+
+/-- **bridge, Tuner constructor, every scalar type on which `Fn.ofInt` and `Fn.ofNat` agree on naturals:** the generated
+constructor IS `tunerInit`, for every sample rate `fs ≥ 0` and EVERY frequency (accepted or rejected, same message). -/
+theorem tunerCtor_eq_generic {α : Type} [Add α] [Sub α] [Mul α] [Div α] [Neg α] [LT α] [LE α] [Fn α] [OfScientific α]
+    [DecidableRel (· < · : α → α → Prop)] [DecidableRel (· ≤ · : α → α → Prop)]
+    (hcast : ∀ n : Nat, (Fn.ofInt (n : Int) : α) = Fn.ofNat n) (fs : ℕ) (f : α) :
+    Gen.tunerCtor (fs : Int) f = (tunerInit fs f).map toGenObj := by
+  have h2 : (Fn.ofInt (2 : Int) : α) = Fn.ofNat 2 := hcast 2
+  unfold Gen.tunerCtor tunerInit
+  simp only [hcast, h2]
+  by_cases h : Fn.abs f ≤ (Fn.ofNat fs : α) / Fn.ofNat 2
+  · simp [h, toGenObj, Except.map, and_comm]
+  · simp [h, Except.map]
+
+/-- **bridge, Tuner constructor, at `ℝ`** (no hypothesis) -/
+theorem tunerCtor_eq (fs : ℕ) (f : ℝ) : Gen.tunerCtor (fs : Int) f = (tunerInit fs f).map toGenObj :=
+  tunerCtor_eq_generic (fun n => by simp) fs f
+
+/-- what the generated constructor accepts, for EVERY `int` sample rate (negative ones included: they reject every frequency):
+exactly `|f| ≤ fs / 2` in real division, and then the object is `(fs, f, f integral, 0)`. -/
+theorem tunerCtor_ok_iff (fs : Int) (f : ℝ) (o : Gen.TunerObj ℝ) :
+    Gen.tunerCtor fs f = .ok o ↔
+      |f| ≤ (fs : ℝ) / 2 ∧ o = { fs := fs, freq := f, periodic := decide (f ≤ (⌊f⌋ : ℝ) ∧ (⌊f⌋ : ℝ) ≤ f), phase := 0 } := by
+  unfold Gen.tunerCtor
+  by_cases h : |f| ≤ (fs : ℝ) / 2
+  · have h' : Fn.abs f ≤ (Fn.ofInt fs : ℝ) / Fn.ofInt 2 := by simpa using h
+    simp only [h', not_true_eq_false, if_false, h, true_and]
+    constructor
+    · intro e; injection e with e; rw [← e]; simp [fn_floor, and_comm]
+    · intro e; rw [e]; simp [fn_floor, and_comm]
+  · have h' : ¬ Fn.abs f ≤ (Fn.ofInt fs : ℝ) / Fn.ofInt 2 := by simpa using h
+    simp [h]
+
+/-- a negative sample rate is rejected whatever the frequency -/
+theorem tunerCtor_neg (fs : Int) (hfs : fs < 0) (f : ℝ) : ∃ e, Gen.tunerCtor fs f = .error e := by
+  unfold Gen.tunerCtor
+  have h' : ¬ Fn.abs f ≤ (Fn.ofInt fs : ℝ) / Fn.ofInt 2 := by
+    have : ((fs : ℝ)) / 2 < 0 := by
+      have : (fs : ℝ) < 0 := by exact_mod_cast hfs
+      linarith
+    have h0 : 0 ≤ |f| := abs_nonneg f
+    simp only [not_le]
+    show (Fn.ofInt fs : ℝ) / Fn.ofInt 2 < Fn.abs f
+    simpa using lt_of_lt_of_le this h0
+  rw [if_pos h']
+  exact ⟨_, rfl⟩
+
+/-- **T14.5 from the GENERATED constructor to the GENERATED loop body.**  For every sample rate `fs ≥ 1` and every frequency: if the
+regenerated constructor accepts `(fs, f)` — which it does exactly for `|f| ≤ fs/2` (`tunerCtor_ok_iff`) — then running the regenerated
+loop body of `Tuner::process` from the object it leaves gives as output `k` the input `k` times `exp(2πi·f·k/fs)`, for every `k`
+and every stream.  Nothing hand-modelled is left between the C++ source of `Tuner` and this statement. -/
+theorem tuner_gen_from_ctor (fs : ℕ) (hfs : 0 < fs) (f : ℝ) (o : Gen.TunerObj ℝ) (h0 : Gen.tunerCtor (fs : Int) f = .ok o)
+    (xs : Array (Cx ℝ)) :
+    (run1 (Gen.tunerStep (objP o)) (objS o) xs).2.size = xs.size ∧
+    ∀ k, k < xs.size →
+      toC ((run1 (Gen.tunerStep (objP o)) (objS o) xs).2.getD k 0) =
+        toC (xs.getD k 0) * Complex.exp (((2 * Real.pi * f * (k : ℝ) / (fs : ℝ) : ℝ) : ℂ) * Complex.I) := by
+  rw [tunerCtor_eq] at h0
+  cases hm : tunerInit fs f with
+  | error e => rw [hm] at h0; exact absurd h0 (by simp [Except.map])
+  | ok s0 =>
+    rw [hm] at h0
+    have ho : o = toGenObj s0 := by
+      simp only [Except.map] at h0
+      injection h0 with h0; exact h0.symm
+    rw [ho, objP_toGenObj, objS_toGenObj]
+    exact tuner_gen_eq fs hfs f s0 hm xs
+
+/-- the counter the generated code holds after the generated constructor and `k` samples: `k mod fs` exactly when `f` is an integer
+(`_periodic`), `k` itself otherwise — a tolerant integer test in the constructor (seeded change C14-F) contradicts this. -/
+theorem tuner_gen_from_ctor_state (fs : ℕ) (hfs : 0 < fs) (f : ℝ) (o : Gen.TunerObj ℝ) (h0 : Gen.tunerCtor (fs : Int) f = .ok o)
+    (xs : Array (Cx ℝ)) :
+    (run1 (Gen.tunerStep (objP o)) (objS o) xs).1.phase =
+      if f ≤ (⌊f⌋ : ℝ) ∧ (⌊f⌋ : ℝ) ≤ f then ((xs.size % fs : ℕ) : Int) else (xs.size : Int) := by
+  rw [tunerCtor_eq] at h0
+  cases hm : tunerInit fs f with
+  | error e => rw [hm] at h0; exact absurd h0 (by simp [Except.map])
+  | ok s0 =>
+    rw [hm] at h0
+    have ho : o = toGenObj s0 := by
+      simp only [Except.map] at h0
+      injection h0 with h0; exact h0.symm
+    rw [ho, objP_toGenObj, objS_toGenObj, tuner_gen_state fs hfs f s0 hm xs]
+    obtain ⟨rfl, _⟩ := C14.tunerInit_ok fs f s0 hm
+    unfold C14.advance toGenS
+    by_cases hper : f ≤ (⌊f⌋ : ℝ) ∧ (⌊f⌋ : ℝ) ≤ f
+    · simp [hper]
+    · simp [hper]
+
+/-- non-vacuity of the constructor bridge: `Tuner(9, 4.5)` is accepted by the GENERATED constructor (real division `9 / 2.0`),
+with `_periodic = false`; `Tuner(8, 3)` with `_periodic = true`; `Tuner(9, 4.75)` is rejected -/
+example : ∃ o, Gen.tunerCtor (9 : Int) (4.5 : ℝ) = .ok o ∧ o.periodic = false := by
+  refine ⟨_, (tunerCtor_ok_iff 9 4.5 _).2 ⟨by norm_num [abs_of_nonneg], rfl⟩, ?_⟩
+  have : ⌊(4.5 : ℝ)⌋ = 4 := by rw [Int.floor_eq_iff]; norm_num
+  simp [this]; norm_num
+example : ∃ e, Gen.tunerCtor (9 : Int) (4.75 : ℝ) = .error e := by
+  cases h : Gen.tunerCtor (9 : Int) (4.75 : ℝ) with
+  | error e => exact ⟨e, rfl⟩
+  | ok o => have := ((tunerCtor_ok_iff 9 4.75 o).1 h).1; norm_num [abs_of_nonneg] at this
 
 /-- non-vacuity: `Tuner(48000, 0.3)` is accepted, so `tuner_gen_eq` applies to a non-integral frequency -/
 example : ∃ s0 : TunerState ℝ, tunerInit 48000 (3 / 10 : ℝ) = .ok s0 :=
